@@ -995,6 +995,12 @@ def call_builtin(I, f, args, kwargs, st, node=None):
         return builtin_len(I, args[0], st, node)
     if name == "isinstance":
         return V(builtin_isinstance(I, args[0], args[1], st, node), st)
+    if name == "divmod":
+        if not (is_intlike(args[0]) and is_intlike(args[1])):
+            raise Unsupported("divmod of non-integers", node)
+        return pyfloordiv(I, args[0], args[1], st, node)
+    if name == "frozenset":
+        return V(frozenset(I.iterate(args[0], st, node)) if args else frozenset(), st)
     if name in ("min", "max"):
         vals = list(args)
         if len(vals) == 1:
